@@ -61,6 +61,10 @@ type C13Case struct {
 	DBIs          []C13DBI  `json:"dbis"`
 	Ops           [][]C13Op `json:"ops"` // ops executed at the i-th between-slices yield
 	FreeWriter    bool      `json:"free_writer,omitempty"`
+	// Held: an application transaction with these changes (on the first swept DBI) is OPEN - holding the LMDB write
+	// lock - when the pass starts and commits 3 ms later: whatever the sweeper looked at before it got the lock is
+	// stale by then
+	Held []C13Op `json:"held,omitempty"`
 }
 
 func c13Key(i int) []byte { return []byte(fmt.Sprintf("k%07d", i)) }
@@ -208,8 +212,13 @@ func checkC13(c C13Case, o *vcore.Obs) error {
 	}
 	_ = simSweep
 
-	applyOps := func(name, lastKey string, ops []C13Op) error {
+	var applyOpsHold func(name, lastKey string, ops []C13Op, hold func()) error
+	applyOps := func(name, lastKey string, ops []C13Op) error { return applyOpsHold(name, lastKey, ops, nil) }
+	applyOpsHold = func(name, lastKey string, ops []C13Op, hold func()) error {
 		return env.Update(func(txn *lmdb.Txn) error {
+			if hold != nil {
+				defer hold()
+			}
 			dbi, err := txn.OpenDBI(name, 0)
 			if err != nil {
 				return err
@@ -320,9 +329,39 @@ func checkC13(c C13Case, o *vcore.Obs) error {
 		}()
 	}
 
+	var heldDone chan error
+	if len(c.Held) > 0 {
+		first := ""
+		for _, n := range names {
+			if swept(n) && first == "" {
+				first = n
+			}
+		}
+		if first != "" {
+			holding, release := make(chan struct{}), make(chan struct{})
+			heldDone = make(chan error, 1)
+			go func() {
+				mu.Lock()
+				defer mu.Unlock()
+				heldDone <- applyOpsHold(first, string(c13Key(0)), c.Held, func() { close(holding); <-release })
+			}()
+			select {
+			case <-holding:
+			case <-time.After(20 * time.Second):
+				close(release)
+				return fmt.Errorf("harness: no write lock within 20 s")
+			}
+			go func() { time.Sleep(3 * time.Millisecond); close(release) }()
+		}
+	}
 	tStart := time.Now()
 	err = sw.VerifSweepOnce(context.Background())
 	tEnd := time.Now()
+	if heldDone != nil {
+		if herr := <-heldDone; herr != nil {
+			return fmt.Errorf("harness: held application transaction: %v", herr)
+		}
+	}
 	stop.Store(true)
 	wg.Wait()
 	if err != nil {
@@ -408,6 +447,7 @@ func checkC13(c C13Case, o *vcore.Obs) error {
 	o.ClassIf(sliced, "pass-sliced")
 	o.ClassIf(lastTouched, "slice-boundary-key-rewritten-or-deleted")
 	o.ClassIf(c.FreeWriter, "free-running-writer")
+	o.ClassIf(heldDone != nil, "app-txn-open-when-the-pass-started")
 	o.ClassIf(!c.Native, "non-native")
 	o.ClassIf(tStart.Add(-r).UnixNano() < 0, "retention-reaches-before-1970")
 	return nil
@@ -461,6 +501,13 @@ func genC13(t *rapid.T) C13Case {
 			})
 		}
 		c.Ops = append(c.Ops, ops)
+	}
+	if rapid.IntRange(0, 2).Draw(t, "held?") == 0 {
+		// rewrite entries near the start of the first DBI (expired markers among them) as live entries / fresh markers
+		for j := rapid.IntRange(1, 4).Draw(t, "nheld"); j > 0; j-- {
+			c.Held = append(c.Held, C13Op{Kind: rapid.SampledFrom([]string{"touch", "touch", "touch", "delete-any"}).Draw(t, "hkind"),
+				Off: rapid.IntRange(0, 40).Draw(t, "hoff"), K: rapid.SampledFrom([]int{kLiveNew, kLiveNew, kMarkNow, kMarkYoung, kLiveOld}).Draw(t, "hk")})
+		}
 	}
 	c.FreeWriter = vcore.Thorough() && rapid.IntRange(0, 4).Draw(t, "free") == 0
 	return c
